@@ -45,8 +45,9 @@ class MermaidNetwork:
     def to_html(self):
         template = pkg_resources.read_text('pjplan.viz.mermaid.templates', 'network.html')
 
+        # the browser decodes character references in the <div> before Mermaid reads its text
         return Template(template).substitute(
-            src=self.__src()
+            src=escape(self.__src())
         )
 
     def _repr_html_(self):
